@@ -67,6 +67,8 @@ class Path(object):
         self.result = None
         self.exception = None
         self.uncertain = False  # an 'unknown' feasibility answer was met
+        self.witness = None     # input values of a model of the complete hypotheses (set by Explorer(witness=True))
+        self.final_check = None
         self.decisions = []     # trace of decisions (choices)
         self.notes = {}
 
@@ -77,7 +79,10 @@ class Path(object):
 class Explorer(object):
     """Depth-first path explorer by re-execution."""
 
-    def __init__(self, feas_timeout_ms=10000, max_paths=200000, max_decisions=4000, prune=True, logic=None):
+    def __init__(self, feas_timeout_ms=10000, max_paths=200000, max_decisions=4000, prune=True, logic=None,
+                 pow_uf=False, witness=False):
+        self.pow_uf = pow_uf
+        self.witness = witness
         self.feas_timeout_ms = feas_timeout_ms
         self.max_paths = max_paths
         self.max_decisions = max_decisions
@@ -122,6 +127,7 @@ class Explorer(object):
             self._solver = z3.Solver() if self.logic is None else z3.SolverFor(self.logic)
             self._solver.set("timeout", self.feas_timeout_ms)
             self._names = itertools.count()
+            self._inputs = []
             prev = _CUR
             _CUR = self
             aborted = False
@@ -141,6 +147,8 @@ class Explorer(object):
             finally:
                 _CUR = prev
             self._path.decisions = [d.choice for d in self._trace]
+            if not aborted and not frontier_hit and self.witness and self._path.exception is None:
+                self._final_witness()
             if frontier_hit:
                 yield ('prefix', [(d.kind, d.choice) for d in self._trace])
             elif not aborted:
@@ -156,18 +164,47 @@ class Explorer(object):
             last.choice = last.alts.pop(0)
             prefix = trace
 
+    def _final_witness(self):
+        """Satisfiability of the complete hypotheses of the path (non-vacuity), with the input values of the model;
+        the reachability twin pins these values so that the independent re-check in a worker is cheap."""
+        unk, unc = self.n_unknown, self._path.uncertain
+        r = self._check()
+        if r == z3.unknown:
+            # not an exploration decision: the twin then carries the full (unpinned) query
+            self.n_unknown, self._path.uncertain = unk, unc
+        path = self._path
+        path.final_check = str(r)
+        path.witness = None
+        if r == z3.sat:
+            m = self._solver.model()
+            w = []
+            for v in self._inputs:
+                val = m.eval(v, model_completion=True)
+                if z3.is_int_value(val) or z3.is_rational_value(val) or z3.is_true(val) or z3.is_false(val):
+                    w.append((v, val))
+            path.witness = w
+
+    def pow_theory(self):
+        pt = self._path.notes.get("_pow_theory")
+        if pt is None:
+            pt = self._path.notes["_pow_theory"] = PowTheory(self)
+        return pt
+
     # ------------------------------------------------------------------ symbols
     def fresh_name(self, base):
         return "%s!%d" % (base, next(self._names))
 
     def real(self, name):
-        return SymReal(z3.Real(name))
+        v = z3.Real(name)
+        self._inputs.append(v)
+        return SymReal(v)
 
     def fresh_real(self, base="r"):
         return SymReal(z3.Real(self.fresh_name(base)))
 
     def int(self, name, lo=None, hi=None):
         v = z3.Int(name)
+        self._inputs.append(v)
         if lo is not None:
             self.axiom(v >= lo)
         if hi is not None:
@@ -519,6 +556,9 @@ class SymReal(object):
     def __float__(self):
         raise TypeError("float() of a symbolic real (code under test needs a proxy-aware replacement)")
 
+    def __bool__(self):
+        return cur().decide(self.t != 0)
+
     def __round__(self, n=None):
         raise TypeError("round() of a symbolic real")
 
@@ -566,12 +606,21 @@ class SymReal(object):
 
 
 def sym_pow(base, p):
-    """``base ** p`` in R mode for a concrete rational exponent ``p`` (root variables for fractional exponents)."""
+    """``base ** p`` in R mode for a concrete rational exponent ``p``.
+
+    Default: integer exponents are expanded, fractional ones use a root variable (z >= 0, z^n = x).
+    With ``Explorer.pow_uf`` the power functions x -> x^e (x >= 0) become a family of uninterpreted functions indexed
+    by the exponent, axiomatised by the facts of real analysis instantiated on the applications of the path
+    (:class:`PowTheory`); this keeps the polynomial degree of the queries at 2.
+    """
     if isinstance(p, (SymReal, SymInt)):
         raise SymDomainError("symbolic exponent")
     f = exponent_fraction(p)
     c = cur()
     bt = SymReal.lift(base)
+    if getattr(c, "pow_uf", False) and not (f.denominator == 1 and 0 <= f.numerator <= 2
+                                            and (f.numerator < 2 or z3.is_const(bt) or z3.is_rational_value(bt))):
+        return c.pow_theory().power(bt, f)
     if f.denominator == 1:
         n = f.numerator
         if n >= 0:
@@ -592,6 +641,75 @@ def sym_pow(base, p):
         raise ZeroDivisionError("0.0 cannot be raised to a negative power")
     c.axiom(z > 0)
     return SymReal(1 / _ipow(z, -n))
+
+
+class PowTheory(object):
+    """Rational powers of non-negative reals as uninterpreted functions P_e with instantiated axioms.
+
+    For every application P_e(t) on the path (t >= 0 is decided as a branch before):
+      (range)        P_e(t) >= 0,  P_e(t) = 0 <=> t = 0                                            (e > 0)
+      (square root)  P_{1/2}(t)^2 = t,   (square) P_2 is t*t (expanded, not a UF)
+      (inverse)      for every other application P_{e'}(u) with e*e' = 1:  P_e(P_{e'}(u)) = u and P_{e'}(P_e(t)) = t
+      (monotone)     for every other application P_e(u) of the same exponent: t < u => P_e(t) < P_e(u) (and converse)
+      (product)      P_e(t) * P_{e'}(t) = P_{e+e'}(t) when all three are applied to the same argument
+    Negative exponents are 1 / P_{-e}(t) with t != 0 decided as a branch.  These are facts about real powers; the
+    exponents are those of the executed code, so a wrong exponent in the code breaks the instantiated identities.
+    """
+
+    def __init__(self, ex):
+        self.ex = ex
+        self.apps = []          # (e, arg term, value term)
+        self.funcs = {}
+
+    def func(self, e):
+        if e not in self.funcs:
+            self.funcs[e] = z3.Function("pow_%d_%d" % (e.numerator, e.denominator), z3.RealSort(), z3.RealSort())
+        return self.funcs[e]
+
+    def power(self, bt, e):
+        ex = self.ex
+        if e == 0:
+            return SymReal(z3.RealVal(1))
+        if ex.decide(bt < 0):
+            raise SymDomainError("negative base of a rational power")
+        if e < 0:
+            if ex.decide(bt == 0):
+                raise ZeroDivisionError("0.0 cannot be raised to a negative power")
+            return SymReal(1 / self.apply(bt, -e))
+        return SymReal(self.apply(bt, e))
+
+    def apply(self, t, e, closure=False):
+        if e == 1:
+            return t
+        for (e2, t2, v2) in self.apps:
+            if e2 == e and t2.eq(t):
+                return v2
+        ex = self.ex
+        v = self.func(e)(t)
+        ex.axiom(z3.And(v >= 0, (v == 0) == (t == 0)))
+        if e == fractions.Fraction(1, 2):
+            ex.axiom(v * v == t)
+        existing = list(self.apps)
+        self.apps.append((e, t, v))
+        for (e2, t2, v2) in existing:
+            if e2 == e:
+                ex.axiom(z3.And(z3.Implies(t < t2, v < v2), z3.Implies(t2 < t, v2 < v)))
+            if t2.eq(t):
+                # product law on a common argument
+                for (e3, t3, v3) in existing:
+                    if t3.eq(t) and e2 + e == e3:
+                        ex.axiom(v * v2 == v3)
+                    if t3.eq(t) and e3 + e == e2:
+                        ex.axiom(v * v3 == v2)
+                    if t3.eq(t) and e2 + e3 == e and not (e2 == e3 and v2 is not v3):
+                        ex.axiom(v2 * v3 == v)
+            if not closure and e2 * e == 1:
+                # inverse pair: P_e(P_e2(t2)) = t2 and P_e2(P_e(t)) = t
+                w1 = self.apply(v2, e, closure=True)
+                ex.axiom(w1 == t2)
+                w2 = self.apply(v, e2, closure=True)
+                ex.axiom(w2 == t)
+        return v
 
 
 def _ipow(t, n):
@@ -622,6 +740,8 @@ def sym_sqrt(x):
     c = cur()
     if c.decide(x.t < 0):
         raise ValueError("math domain error")
+    if getattr(c, "pow_uf", False):
+        return SymReal(c.pow_theory().apply(x.t, fractions.Fraction(1, 2)))
     z = z3.Real(c.fresh_name("sqrt"))
     c.axiom(z >= 0)
     c.axiom(z * z == x.t)
@@ -709,6 +829,9 @@ class SymInt(object):
         return cur().decide_value(self.t)
 
     __int__ = __index__
+
+    def __bool__(self):
+        return cur().decide(self.t != 0)
 
     def __hash__(self):
         return hash(cur().decide_value(self.t))
